@@ -167,3 +167,29 @@ Theorem C04_vpcc_roundtrip : leaf_roundtrip vpcc_wf vpcc_size 0x76706343 enc_vpc
 Proof. exact (vpcc_roundtrip). Qed.
 Print Assumptions C04_vpcc_roundtrip.
 
+
+(** ** Containers (Proofs/Rt{Stsd,Stbl,Minf,Mdia,Edts,Mvex,Traf,Moof,Ilst,Meta,Udta,Trak,Moov}.v)
+    [cont_roundtrip] (Proofs/KitCont.v) is [leaf_roundtrip] with the decoder's fuel quantified above an explicit bound;
+    [cont_roundtrip_s] additionally requires the stream's cached view to be consistent with its data
+    (MetaBox::read_box seeks backwards). The payloads are the children's complete ISO renderings (Iso/Iso<Box>.v).
+    [x_rt_wf] = [x_wf] plus what the struct cannot represent: at most one sample entry, at least one of stco/co64,
+    no duplicate metadata keys, canonical box types in MetaBox::Unknown (RtContWf.v states each with a witness). *)
+From MP4 Require Import BoxStsd BoxStbl BoxMinf BoxMdia BoxEdts BoxMvex BoxTraf BoxMoof BoxIlst BoxMeta BoxUdta BoxTrak BoxMoov.
+From MP4 Require IsoStsd IsoStbl IsoMinf IsoMdia IsoEdts IsoMvex IsoTraf IsoMoof IsoIlst IsoMetaBox IsoUdta IsoTrak IsoMoov.
+From MP4 Require Import KitCont RtStsd RtStbl RtMinf RtMdia RtEdts RtTrak RtMvex RtTraf RtMoof RtIlst RtMeta RtUdta RtMoov RtContWf.
+Theorem C04_containers_roundtrip : forall me : mode,
+  cont_roundtrip stsd_rt_wf stsd_size 0x73747364 (enc_stsd me) dec_stsd_fuel IsoStsd.iso_stsd_payload (fun _ => 1%nat)
+  /\ cont_roundtrip stbl_rt_wf stbl_size 0x7374626c (enc_stbl me) dec_stbl_fuel IsoStbl.iso_stbl_payload (fun _ => 9%nat)
+  /\ cont_roundtrip minf_rt_wf minf_size 0x6d696e66 (enc_minf me) dec_minf_fuel IsoMinf.iso_minf_payload (fun _ => 13%nat)
+  /\ cont_roundtrip mdia_rt_wf mdia_size 0x6d646961 (enc_mdia me) dec_mdia_fuel IsoMdia.iso_mdia_payload (fun _ => 16%nat)
+  /\ cont_roundtrip edts_wf edts_size 0x65647473 enc_edts dec_edts_fuel IsoEdts.iso_edts_payload (fun _ => 0%nat)
+  /\ cont_roundtrip mvex_rt_wf mvex_size 0x6d766578 enc_mvex dec_mvex_fuel IsoMvex.iso_mvex_payload mvex_fuel
+  /\ cont_roundtrip traf_rt_wf traf_size 0x74726166 enc_traf dec_traf_fuel IsoTraf.iso_traf_payload traf_fuel
+  /\ cont_roundtrip moof_rt_wf moof_size 0x6d6f6f66 enc_moof dec_moof_fuel IsoMoof.iso_moof_payload moof_fuel
+  /\ cont_roundtrip ilst_wf ilst_size 0x696c7374 enc_ilst dec_ilst_fuel IsoIlst.iso_ilst_payload ilst_fuel
+  /\ cont_roundtrip_s meta_rt_wf meta_size 0x6d657461 enc_meta dec_meta_fuel IsoMetaBox.iso_meta_payload meta_fuel
+  /\ cont_roundtrip_s udta_rt_wf udta_size 0x75647461 enc_udta dec_udta_fuel IsoUdta.iso_udta_payload udta_fuel
+  /\ cont_roundtrip_s trak_rt_wf trak_size 0x7472616b (enc_trak me) dec_trak_fuel IsoTrak.iso_trak_payload trak_fuel
+  /\ cont_roundtrip_s moov_rt_wf moov_size 0x6d6f6f76 (enc_moov me) dec_moov_fuel IsoMoov.iso_moov_payload moov_fuel.
+Proof. exact containers_roundtrip. Qed.
+Print Assumptions C04_containers_roundtrip.
